@@ -1,0 +1,61 @@
+package e2e
+
+import (
+	"sync"
+	"testing"
+	"time"
+
+	streamsql "github.com/rulego/streamsql"
+	"github.com/stretchr/testify/assert"
+	"github.com/stretchr/testify/require"
+)
+
+// An aggregate over a CASE expression can be used inside arithmetic with other
+// aggregates; its argument is evaluated per row as when it is selected alone.
+func TestSelect_CaseAggregateInsideArithmetic(t *testing.T) {
+	run := func(sql string) map[string]any {
+		ssql := streamsql.New()
+		require.NoError(t, ssql.Execute(sql), sql)
+		defer ssql.Stop()
+		var mu sync.Mutex
+		var out []map[string]any
+		ssql.AddSink(func(rows []map[string]any) {
+			mu.Lock()
+			defer mu.Unlock()
+			out = append(out, rows...)
+		})
+		for _, r := range []map[string]any{
+			{"k": "b", "v": 1},
+			{"k": "b", "v": 2},
+			{"k": "b", "v": 3},
+		} {
+			ssql.Emit(r)
+		}
+		deadline := time.Now().Add(2 * time.Second)
+		for time.Now().Before(deadline) {
+			mu.Lock()
+			n := len(out)
+			mu.Unlock()
+			if n > 0 {
+				break
+			}
+			time.Sleep(10 * time.Millisecond)
+		}
+		mu.Lock()
+		defer mu.Unlock()
+		require.Len(t, out, 1, sql)
+		return out[0]
+	}
+	const tail = " FROM stream GROUP BY k, CountingWindow(3)"
+
+	row := run("SELECT k, sum(CASE WHEN v > 1 THEN 1 ELSE 0 END) * 100 / count(*) AS pct" + tail)
+	assert.InDelta(t, 200.0/3.0, row["pct"], 1e-9)
+
+	row = run("SELECT k, 100 * sum(CASE WHEN v > 1 THEN 1 ELSE 0 END) / count(*) AS pct, sum(CASE WHEN v > 1 THEN 1 ELSE 0 END) AS n" + tail)
+	assert.InDelta(t, 200.0/3.0, row["pct"], 1e-9)
+	assert.EqualValues(t, 2, row["n"])
+
+	row = run("SELECT k, max(CASE WHEN k = 'b' THEN v ELSE 0 END) - min(v) AS d, sum(v*2) * 100 / count(*) AS m" + tail)
+	assert.EqualValues(t, 2, row["d"])
+	assert.EqualValues(t, 400, row["m"])
+}
